@@ -441,6 +441,10 @@ class ClientWorldObjectManager:
             # an explicit follow-up update?
             child_obj = region_state.lookup_localid(child_id)
             if child_obj and child_obj.PCode == PCode.AVATAR:
+                if not obj:
+                    # The orphan list was taken out of the orphanage above. The surviving
+                    # avatar still names this local ID as its parent, so it stays an orphan.
+                    region_state._track_orphan(child_id, local_id)
                 continue
             self._kill_object_by_local_id(region_state, child_id)
 
